@@ -179,10 +179,16 @@ func c06Gen(tier string, rng *rand.Rand, emit func(interface{})) {
 	for i := 0; i <= 100; i++ {
 		grid = append(grid, math.Round(float64(i)/100*1024)/1024)
 	}
-	grid = append(grid, 1e-12, 1-1e-12, math.Ldexp(1, -40), 1-math.Ldexp(1, -40), math.Ldexp(1, -53), 1-math.Ldexp(1, -53))
+	grid = append(grid, math.Ldexp(1, -40), 1-math.Ldexp(1, -40))
+	wide := []float64{1e-12, 1 - 1e-12, math.Ldexp(1, -53), 1 - math.Ldexp(1, -53)} // exact weights of ~92 N bits: costly
 	for n := 0; n <= 60; n++ {
 		for _, p := range grid {
 			emit(c06Case{Op: 0, N: n, P: F64(p)})
+		}
+		if thorough || n <= 16 || n%5 == 0 {
+			for _, p := range wide {
+				emit(c06Case{Op: 0, N: n, P: F64(p)})
+			}
 		}
 	}
 	// the decimal grid itself (53-bit P) for small N, and a few per larger N
